@@ -175,7 +175,8 @@ namespace via
       {
         tcp_pointer->send_data(std::move(buffers));
 
-        if (keep_alive)
+        // a 100 Continue response is not the response to the request
+        if (keep_alive || is_continue)
           return true;
         else // close the connection after the response has been sent
           tcp_pointer->disconnect();
